@@ -26,6 +26,9 @@ RULE = (
     'and status/iterations at t may differ; recording arrays - every read during the solve addresses (name, T+offset) '
     'for a term of the script with 0 <= T+offset < n; differential against a padded-span twin (LAGS extra periods in '
     'front, LEADS behind, sentinel-filled) - identical results for feasible t; for an infeasible t the call must raise. '
+    'solve(start, end) ranges that contain an infeasible period (or an offset source outside the span) must refuse it when it '
+    'is reached, nothing written for it - under plain options, offset -1/+1, max_iter=0 and both, on the Python engine and on '
+    'the gfortran-compiled engine (64 programs in the quick tier); objects whose series were all set from one shared array. '
     'Non-trivial: LAGS+LEADS >= 1 and the position is the first/last feasible one or infeasible. Distinct = case JSON.'
 )
 ASSUMPTIONS = ['models are built with the script\'s own lag/lead lengths (no smaller explicit lags=/leads=)',
